@@ -224,7 +224,12 @@ def harness_bin(pid):
 
 # ------------------------------------------------------------------ correspondence
 def run_shard(path):
-    rc, out, dt = sh(['coqc', '-Q', COQ, 'TV', '-w', '-all', path], timeout=1200)
+    rc, out, dt = sh(['coqc', '-noglob', '-Q', COQ, 'TV', '-w', '-all', path], timeout=1200)
+    for ext in ('.vo', '.vok', '.vos'):
+        try:
+            os.remove(path[:-2] + ext)
+        except OSError:
+            pass
     if rc != 0:
         return path, None, out[-2000:]
     m = re.search(r'=\s*(\[.*?\])\s*:\s*list', out, flags=re.S)
